@@ -64,6 +64,10 @@ var c01Vocab = []struct {
 		{Name: "user-agent", Value: "ua/1"}, {Name: "content-type", Value: "text/x"}, {Name: "cookie", Value: "a=1"}, {Name: "cookie", Value: "b=2"}, {Name: "x-empty", Value: ""},
 		{Name: "x-long", Value: valOfLen(130)}, {Name: "te", Value: "trailers"}, {Name: "content-length", Value: "3"}}, body: "abc", trailers: []ref.Field{{Name: "x-trailer", Value: "tv"}}},
 	{fields: []ref.Field{{Name: ":method", Value: "PUT"}, {Name: ":scheme", Value: "http"}, {Name: ":path", Value: "/abc"}, {Name: "x-rep", Value: valOfLen(4)}, {Name: "x-rep", Value: "second"}, {Name: "accept", Value: "*/*"}}, body: "xyz"},
+	// empty values next to non-empty ones: static name-only entries (accept, accept-language) can be sent as an
+	// indexed field, and the second x-flag as a reference to the entry the first one inserted
+	{fields: []ref.Field{{Name: ":method", Value: "GET"}, {Name: ":scheme", Value: "https"}, {Name: ":authority", Value: "e.example"}, {Name: ":path", Value: "/e"},
+		{Name: "x-v", Value: "one"}, {Name: "accept", Value: ""}, {Name: "x-flag", Value: ""}, {Name: "x-w", Value: "tail"}, {Name: "x-flag", Value: ""}, {Name: "accept-language", Value: ""}, {Name: "x-z", Value: "end"}}},
 }
 
 func c01Choice(s string) ref.EncChoice {
